@@ -127,8 +127,10 @@ def check_ack_table(ctx):
     ok = len(errs) == 1 and any("self._set_ce_state(" in norm(t) and isinstance(t, ast.UnaryOp) and v for t, v in cfg.dominating_conditions(errs[0]))
     ctx.ob("C12.T1", f.qualname, ok, "S2F38 is CEID_UNKNOWN iff _set_ce_state reports an unknown CEID" if ok else "ERACK is not derived from _set_ce_state's result", where=f.where)
     c = [c for c in calls_in(f.node) if call_name(c) == "self._set_ce_state"]
-    ok = len(c) == 1 and [norm(a) for a in c[0].args] == ["function.CEED.get()", "function.CEID.get()"]
-    ctx.ob("C12.T1", f.qualname, ok, "CEED and the CEID list of the request are applied" if ok else f"_set_ce_state is called with {[norm(a) for a in c[0].args] if c else None}", key="args", where=f.where)
+    got = [rules.expand(f.node, a) for a in c[0].args] if c else None
+    dec = [norm(s.value) for s in rules.func_stmts(f.node) if isinstance(s, ast.Assign) and isinstance(s.value, ast.Call) and (call_name(s.value) or "").endswith("streams_functions.decode")]
+    ok = len(c) == 1 and len(dec) == 1 and got == [f"{dec[0]}.CEED.get()", f"{dec[0]}.CEID.get()"]
+    ctx.ob("C12.T1", f.qualname, ok, "CEED and the CEID list of the request are applied" if ok else f"_set_ce_state is called with {got}", key="args", where=f.where)
 
 
 MENTIONS = {
